@@ -19,7 +19,8 @@ def _try(fn, *a):
         return f'{ERR}:LookupError'
 
 
-def api_transcript(w, reltypes=(), smap=None):
+def api_transcript(w, reltypes=(), smap=None, forms=()):
+    search_forms = tuple(forms)
     """Canonical transcript of what the public API reports through Wordnet *w*.
     Entities are named 'lexspec|id'. Ordered where the API promises order."""
     smap = smap or spec_map()
@@ -97,6 +98,9 @@ def api_transcript(w, reltypes=(), smap=None):
             'meta': ss.metadata(), 'relations': rels,
         }
     T['ilis'] = sorted(([i.id, i.status, i.definition()] for i in w.ilis()), key=repr)
+    if search_forms:
+        T['search'] = {q: [sorted(ent(x) for x in w.words(q)), sorted(ent(x) for x in w.senses(q)),
+                           sorted(ent(x) for x in w.synsets(q))] for q in search_forms}
     return T
 
 
